@@ -135,7 +135,11 @@ def eval_type(args):
             fail('C06', h, f'ordered {ordered} / insertion {insertion} / expected {sorted(model_present)}')
         else:
             ins = e.get_children(ordered=False)
-            if any(c.get_parent() is not e for c in ins):
+            want_ids = hist.present_ids(h, outs)
+            want = [kids[i] for i in want_ids if i < len(kids)]
+            if sorted(map(id, ins)) != sorted(map(id, want)) or sorted(map(id, e.get_children(ordered=True))) != sorted(map(id, want)):
+                fail('C06', h, f'the views do not hold exactly the children added minus removed (by identity): ordered {ordered} / insertion {insertion}')
+            elif any(c.get_parent() is not e for c in ins):
                 fail('C06', h, 'a child does not report the element as parent')
             elif any(k.get_parent() is not None for k in kids if not any(k is c for c in ins)):
                 fail('C06', h, 'a removed / replaced / rejected child still reports a parent')
@@ -173,6 +177,17 @@ def eval_type(args):
                     fail('C16', h, f'to_string(intelligent_choice={ic}) changed {bad[0]}: {b[bad[0]]} -> {a[bad[0]]}')
                     break
         # ---- C07 / C12 on the last add
+        if last[0] == 'unset' and lo == 'ok':
+            counts['C11'] += 1
+            remaining = hist.present_model(h, outs)
+            twin = tuple(('add', a) for a in remaining)
+            et, to, _, _ = hist.run(lib, name, twin)
+            if all(o == 'ok' for o in to):
+                a_, b_ = observe(h), observe(twin)
+                for key in ('verdict', 'accepts'):
+                    if a_[key] != b_[key]:
+                        fail('C11', h, f'{key} differs from a fresh element holding {remaining}: {b_[key]} vs {a_[key]}')
+                        break
         if last[0] in ('add', 'addf'):     # failed attempts earlier in the history are allowed: they must have been no-ops
             e0, _, _, _ = hist.run(lib, name, prev)
             before = hist.views(e0)[0]
